@@ -444,7 +444,20 @@ def step(model):
     model.run_model(num_steps=1, initialize_model=False)
 
 
-def execute(spec, monitors, pid=None, timeout=90, max_steps=None, count_states=True, entities=None, ctx=None):
+def configured_weather(ctx, date):
+    """(tmin, tmax, precipitation, et0) the USER's table holds for `date` (by column name), independent of the model's own matrix."""
+    cache = getattr(ctx, "_wcfg", None)
+    if cache is None:
+        df = getattr(ctx, "weather_df_cfg", None)
+        if df is None:
+            df = S.make_weather(ctx.spec)
+        cache = {pd.Timestamp(d): (float(a), float(b), float(c), float(e)) for d, a, b, c, e in
+                 zip(df["Date"].values, df["MinTemp"].values, df["MaxTemp"].values, df["Precipitation"].values, df["ReferenceET"].values)}
+        ctx._wcfg = cache
+    return cache[pd.Timestamp(date)]
+
+
+def execute(spec, monitors, pid=None, timeout=90, max_steps=None, count_states=True, entities=None, ctx=None, model=None):
     """Build, initialise and step the real model to termination under the monitors.
 
     Returns the Ctx.  `ctx.aborted` is None or a dict describing the exception / timeout and the phase."""
@@ -455,10 +468,11 @@ def execute(spec, monitors, pid=None, timeout=90, max_steps=None, count_states=T
     t0 = time.time()
     try:
         with watchdog(timeout), sinks_active(monitors):
-            model = S.make_model(spec, entities)
+            if model is None:
+                model = S.make_model(spec, entities)
             ctx.model = model
             ctx.phase = "init"
-            model._initialize()
+            model._initialize()      # (a model handed in by the caller is re-initialised: the history "same object run again")
             ctx.phase = "monitor-init"
             for m in monitors:
                 m.on_init(ctx)
